@@ -270,3 +270,44 @@ Theorem gen_links_in_force_spec : forall (L E D : Type) (leqb : L -> L -> bool),
    exists l0, GenLinks.registered L E D data_links_attr is_collection coll_links entry_link dc ext l0 /\ inverse l0 = Some l).
 Proof. exact Lemmas.gen_links_in_force_spec. Qed.
 Print Assumptions gen_links_in_force_spec.
+
+(* ---- round 6: the translated set of links in force, instantiated at the manager model's types, and the update loop closed
+   over it (no link-set parameter).  g_links_in_force iterL s  is  lm_links_in_force (gen/Gen_links.v) with
+   data_collection = the member datasets of s, _external_links = s_ext s, link objects = (link, declared inverse function),
+   Data.links d = coordinate links ++ derived-component links (each with the inverse function read off d_dinv),
+   link.inverse = ComponentLink([to], from[0], using=inverse, inverse=using), `==` on link objects structural;
+   the result is projected to the model's links.
+   links_paired s :=  every dataset's d_dinv entries are the `.inverse` objects of its d_der links (same name, attributes swapped,
+                      at most one per starting attribute)  /\  every entry that is not a LinkCollection has exactly one sublink.
+   same_derivations own links t0 t :=  same keys  /\  same depth_of for every attribute  /\  every entry (k, l) of t is a link of
+                      [links] that targets its key, is not own, k is the minimum height of a derivation, inputs strictly lower. *)
+
+(* the pairing invariant holds in every state reached from a paired state by operations that only register one-link plain entries *)
+Theorem links_paired_reachable : forall ops s0, links_paired s0 -> Forall shaped_op ops -> links_paired (run s0 ops).
+Proof. exact Lemmas.links_paired_reachable. Qed.
+Print Assumptions links_paired_reachable.
+
+(* the TRANSLATED `self._links | self._inverse_links`, run on a state of the manager model, has exactly the elements of the hand
+   model's all_links (order and multiplicity may differ), for every iteration order of the set of links *)
+Theorem gen_links_in_force_is_all_links : forall s iterL, iterL_ok iterL -> links_paired s ->
+  forall l, In l (g_links_in_force iterL s) <-> In l (all_links s).
+Proof. exact Lemmas.gen_links_in_force_is_all_links. Qed.
+Print Assumptions gen_links_in_force_is_all_links.
+
+(* gen_update_is_recompute without the link-set parameter: the translated update loop, handed the TRANSLATED set of links in force,
+   raises nothing and installs on every dataset of the collection, in order, a table with the same derivations as the one the hand
+   model's recompute stores: same keys, same depth for every attribute, every stored link a link in force that is a valid
+   minimal derivation step.  Up to link order: among links of equal merit the stored link may differ, because the translated
+   set enumerates its elements in another order than all_links (Python iterates a set). *)
+Theorem gen_update_is_recompute_closed : forall s iterL iter fuel,
+  iterL_ok iterL -> iter_ok iter -> links_paired s ->
+  (fuel_for (g_links_in_force iterL s) <= fuel)%nat ->
+  exists tabs : list table,
+    g_update iter fuel (g_links_in_force iterL s) (map gdata_of (filter d_member (s_data s))) =
+      Ok ([], map (fun dt => EvSet cid link gdata (gdata_of (fst dt)) (installed (gdata_of (fst dt)) (snd dt)))
+                  (combine (filter d_member (s_data s)) tabs), tt) /\
+    length tabs = length (filter d_member (s_data s)) /\
+    Forall2 (fun d t => same_derivations (d_own d) (all_links s) (d_tbl d) t)
+            (filter d_member (s_data (recompute s))) tabs.
+Proof. exact Lemmas.gen_update_is_recompute_closed. Qed.
+Print Assumptions gen_update_is_recompute_closed.
